@@ -332,9 +332,9 @@ theorem C08_polygonContains_lon_offset_general (hπ : 0 < T.pi) (pts : List (P2 
   polygonContains_lon_offset_general T hπ pts d p p' j hlo hhi hne hlo' hhi' hne' hrel hy hrange hrange' hsep hsep'
 
 /-- **C08** `BoundingBox::point_inside` (spherical) under a common longitude offset -/
-theorem C08_bbox_lon_offset (d : F) (b : BBox F) (p : P2 F) (hs : p.x + d < 0 ↔ p.x < 0) :
+theorem C08_bbox_lon_offset (d : F) (b : BBox F) (p : P2 F) :
     @BBox.inside F (fieldScalar T) (b.shift ⟨d, 0⟩) true (P2.shift ⟨d, 0⟩ p) = @BBox.inside F (fieldScalar T) b true p :=
-  BBox.inside_lon_offset T d b p hs
+  BBox.inside_lon_offset T d b p
 
 end field
 
